@@ -291,6 +291,24 @@ def prefix_needs(a: int, b: int, body: bytes) -> bool:
     return 1 <= needed <= declared - length
 
 
+def complete_frame(a: int, b: int, body: bytes) -> bool:
+    """post: _"""
+    # C04, upper bound at zero: once every byte of a frame is in the buffer the parser never asks for more
+    cls, builder, _ = _frame()
+    if len(body) > P['B']:
+        return True
+    buf, declared = builder(a, b, body)
+    if buf is None or declared is None or declared > len(buf):
+        return True
+    if P['FRAME'].startswith('ldap') and declared != len(buf) - len(body):
+        # the property quantifies over valid records: for BER the frame has to end where the (concrete, valid)
+        # message ends; symbolic bytes inside the declared length are malformed inner TLVs, not in scope here
+        return True
+    _, _, error = _parse_outcome(cls, buf)
+    reach()
+    return not isinstance(error, NotEnoughData)
+
+
 def composed_cuts(number: int, payload: bytes) -> bool:
     """post: _"""
     # C04 (ii): frames produced by the real compose(); every cut position
@@ -370,33 +388,31 @@ def reader_loop(pay1: bytes, pay2: bytes, chunk1: int, chunk2: int, chunk3: int)
     # C04-L: the reader described by the property, over two concatenated composed records, delivered in chunks
     if len(pay1) > P['B'] or len(pay2) > P['B']:
         return True
-    chunks = [chunk1, chunk2, chunk3]
-    for chunk in chunks:
-        if not 1 <= chunk <= P['CHUNK']:
+    extras = [chunk1, chunk2, chunk3]
+    for extra in extras:
+        if not 0 <= extra <= P['CHUNK']:
             return True
     first, second = _compose_object(1, pay1), _compose_object(2, pay2)
     if first is None or second is None:
         return True
     cls = type(first)
-    stream = bytes(first.compose()) + bytes(second.compose())
+    frame1 = bytes(first.compose())
+    stream = frame1 + bytes(second.compose())
+    ends = [len(frame1), len(stream)]
     delivered = 0
     buffer = bytearray()
     records = []
-    want = 0
+    want = 1
     step = 0
     while len(records) < 2:
-        # deliver: the scheduled chunk sizes first, then whatever the reader asked for
-        if want > 0:
-            size = want
-        else:
-            size = chunks[step] if step < len(chunks) else 1
-            step += 1
+        # the network hands over at least the bytes the reader waits for, possibly a few more (arbitrary fragments)
+        if delivered + want > ends[len(records)]:
+            return False          # the reader waits for more bytes than the sender has written for this record
+        extra = extras[step] if step < len(extras) else 0
+        step += 1
+        size = want + extra
         if delivered + size > len(stream):
-            if want > 0:
-                return False      # the reader waits for more bytes than the sender has written
             size = len(stream) - delivered
-        if size == 0:
-            return False          # stream exhausted, records missing
         buffer += stream[delivered:delivered + size]
         delivered += size
         want = 0
@@ -410,6 +426,8 @@ def reader_loop(pay1: bytes, pay2: bytes, chunk1: int, chunk2: int, chunk3: int)
                 break
             except PARSE_ERRORS:
                 return False
+        if want == 0 and len(records) < 2:
+            return False
     reach()
     return deep_eq(records[0], first) and deep_eq(records[1], second) and delivered == len(stream) and not buffer
 
@@ -502,13 +520,21 @@ def shards_c04(tier, seed):  # pylint: disable=unused-argument
         for cut in range(0, header + (0 if fixed else 1)):
             out.append(Shard(MOD, 'prefix_needs', 'prefix/%s/cut%d' % (name, cut), dict(base, L=1, CUT=cut), 90,
                              bounds='buffer cut after %d header bytes, header integers full width' % cut))
+    for name in FRAMES:
+        base = dict(FRAME_PARAMS.get(name, {}), FRAME=name, B=3)
+        variants = [base] if name != 'ssl2_record' else [dict(base, SSL2_MTYPE=0), dict(base, SSL2_MTYPE=1)]
+        for idx, vpar in enumerate(variants):
+            out.append(Shard(MOD, 'complete_frame', 'complete/%s%s' % (name, '' if len(variants) == 1 else '-%d' % idx),
+                             vpar, 150, bounds='header integers full width, body <= 3 symbolic bytes, whole frame '
+                                                'present: not-enough-data is never answered'))
     for kind in ('tls_record', 'mysql_record', 'tpkt', 'openvpn_tcp', 'server_key_exchange', 'ssh_kexdh_init',
                  'cotp_request', 'ldap_response', 'ldap_request', 'pg_sslrequest', 'ssl2_error'):
         out.append(Shard(MOD, 'composed_cuts', 'composed_cuts/' + kind, {'KIND': kind, 'B': 4}, 120,
                          bounds='frames from the real compose(), payload <= 4 symbolic bytes, every cut position'))
     for kind in ('tls_record', 'mysql_record', 'tpkt', 'ldap_response', 'ssl2_error', 'pg_sslrequest') + (
             ('ssh_kexdh_init', 'openvpn_tcp', 'ldap_request') if tier == 'thorough' else ()):
-        out.append(Shard(MOD, 'reader_loop', 'reader_loop/' + kind, {'KIND': kind, 'B': 2, 'CHUNK': 3}, 300,
-                         bounds='two composed records, payloads <= 2 symbolic bytes, first three delivery chunks '
-                                'symbolic in 1..3, afterwards exactly the requested bytes'))
+        rpar = {'KIND': kind, 'B': 2, 'CHUNK': 3} if tier == 'thorough' else {'KIND': kind, 'B': 1, 'CHUNK': 2}
+        out.append(Shard(MOD, 'reader_loop', 'reader_loop/' + kind, rpar, 1200 if tier == 'thorough' else 150,
+                         bounds='two composed records, payloads <= %(B)d symbolic bytes, surplus <= %(CHUNK)d;' % rpar + ' every delivery = the bytes the reader '
+                                'waits for + a symbolic surplus of 0..3 bytes (first three deliveries), then exact'))
     return out
